@@ -71,7 +71,8 @@ TraceEnd ==
 Silent ==
   /\ \/ Reader
      \/ \E s \in Sessions : \/ WorkerDequeue(s) \/ WorkerResetFlag(s) \/ WorkerStep(s) \/ FlushOut(s) \/ FlushErr(s)
-                            \/ WorkerStopFlusher(s) \/ WorkerFinalDrain(s) \/ WorkerReply(s)
+                            \/ WorkerStopFlusher(s) \/ WorkerFinalDrainOut(s) \/ WorkerFinalDrainErr(s)
+                            \/ WorkerReplyText(s) \/ WorkerReplyDone(s)
   /\ UNCHANGED l
 
 \* (TLC's depth-first queue explores the successor generated last first: logged
